@@ -20,7 +20,9 @@ theorem flow_facts :
     Generated.facts.loadOrder = true ∧ Generated.facts.loadsOrder = true ∧
     Generated.facts.auditRaisesOnUnsafe = true ∧ Generated.facts.exceptionNamesSorted = true ∧
     Generated.facts.untrustedTreeWithNone = true ∧ Generated.facts.untrustedSorted = true ∧
-    Generated.facts.checkTypeIsMembership = true ∧ Generated.facts.getTrustedIsCallerPlusDefault = true := by
+    Generated.facts.checkTypeIsMembership = true ∧ Generated.facts.getTrustedIsCallerPlusDefault = true ∧
+    Generated.facts.typePathsKeepStrings = true ∧ Generated.facts.typeNameIsModuleDotName = true ∧
+    Generated.facts.baseNodeMethodsAsModelled = true := by
   decide
 
 variable (tbl : Table)
